@@ -30,6 +30,7 @@ from __future__ import annotations
 
 import json
 import math
+import os
 from fractions import Fraction
 from typing import Any
 
@@ -301,8 +302,121 @@ def gen_opts(rng: common.Rng, algo: str, space, n: int) -> dict[str, Any]:
                     row.append(rat(F(float(l + t * (u - l)))))
             rows.append(row)
         o["samples"] = rows
-        o["form"] = rng.pick(["array", "array", "dict", "dicts"])
+        o.update(gen_custom_form(rng, space, len(rows)))
     return o
+
+
+CUSTOM_FORMS = ["array", "dict", "dict", "dicts", "dicts", "dicts", "file"]
+
+
+def gen_custom_form(rng: common.Rng, space, n_rows: int) -> dict[str, Any]:
+    """How the user writes the `samples` of CustomDOE: every documented form ("a 2D-array, a dictionary of
+    2D-arrays or a list of dictionaries of 1D-arrays", or a file), the dictionaries in the key order the user
+    likes (the identity, the reverse, a random permutation; one order per dictionary), integer variables given
+    as integer or as float arrays."""
+    names = [v["name"] for v in space["vars"]]
+    o: dict[str, Any] = {"form": rng.pick(CUSTOM_FORMS)}
+
+    def order():
+        kind = rng.pick(["same", "reverse", "shuffle", "shuffle"])
+        k = list(names)
+        if kind == "reverse":
+            k.reverse()
+        elif kind == "shuffle":
+            rng.shuffle(k)
+        return k
+
+    if o["form"] == "dict":
+        o["orders"] = [order()]
+    elif o["form"] == "dicts":
+        o["orders"] = [order()] * n_rows if rng.chance(0.5) else [order() for _ in range(n_rows)]
+    elif o["form"] == "file":
+        o["file"] = {"ext": rng.pick([".txt", ".csv"]), "delimiter": rng.pick([",", ",", ";", " "]),
+                     "skiprows": rng.pick([0, 0, 1, 2]), "comment": rng.chance(0.3)}
+    if o["form"] in ("dict", "dicts"):
+        o["int_dtype"] = rng.chance(0.5)
+    return o
+
+
+_TMPDIR: str | None = None
+
+
+def tmp_dir() -> str:
+    """Scratch directory of this process (removed at exit) for the `doe_file` inputs of CustomDOE."""
+    global _TMPDIR
+    if _TMPDIR is None or not os.path.isdir(_TMPDIR):
+        import atexit
+        import tempfile
+
+        _TMPDIR = tempfile.mkdtemp(prefix="c14-")
+        atexit.register(cleanup_tmp)
+    return _TMPDIR
+
+
+def cleanup_tmp() -> None:
+    global _TMPDIR
+    if _TMPDIR is not None:
+        import shutil
+
+        shutil.rmtree(_TMPDIR, ignore_errors=True)
+        _TMPDIR = None
+
+
+def dec(x: Fraction) -> str:
+    """Decimal text of a float value that `float()` reads back exactly."""
+    f = float(x)
+    return repr(int(f)) if f == int(f) and abs(f) < 1e15 else repr(f)
+
+
+def write_doe_file(rows, spec) -> str:
+    import hashlib
+
+    delim = spec["delimiter"]
+    lines = ["header line to skip"] * spec["skiprows"]
+    for i, row in enumerate(rows):
+        if spec.get("comment") and i == 1:
+            lines.append("# a comment line")
+        lines.append(delim.join(dec(fr(t)) for t in row))
+    text = "\n".join(lines) + "\n"
+    path = os.path.join(tmp_dir(), "doe-" + hashlib.sha1((text + json.dumps(spec, sort_keys=True)).encode()).hexdigest()[:16] + spec["ext"])
+    if not os.path.exists(path):
+        with open(path, "w") as f:
+            f.write(text)
+    return path
+
+
+def custom_samples_setting(space, opts) -> dict[str, Any]:
+    """The `samples` / `doe_file` settings of CustomDOE as the user writes them."""
+    v = opts["samples"]
+    arr = np.array([[float(fr(t)) for t in row] for row in v])
+    form = opts.get("form", "array")
+    if form == "array":
+        return {"samples": arr}
+    if form == "file":
+        spec = opts["file"]
+        kw: dict[str, Any] = {"doe_file": write_doe_file(v, spec)}
+        if spec["delimiter"] != ",":
+            kw["delimiter"] = spec["delimiter"]
+        if spec["skiprows"]:
+            kw["skiprows"] = spec["skiprows"]
+        return kw
+    cols, start = {}, 0
+    for var in space["vars"]:
+        size = len(var["lb"])
+        c = arr[:, start:start + size]
+        if var["int"] and opts.get("int_dtype"):
+            c = c.astype(int)
+        cols[var["name"]] = c
+        start += size
+    names = [var["name"] for var in space["vars"]]
+    orders = opts.get("orders") or [names]
+    if form == "dict":
+        return {"samples": {name: cols[name] for name in orders[0]}}
+    out = []
+    for i in range(arr.shape[0]):
+        order = orders[i] if i < len(orders) else names
+        out.append({name: cols[name][i] for name in order})
+    return {"samples": out}
 
 
 def settings_of(space, req) -> dict[str, Any]:
@@ -324,21 +438,8 @@ def settings_of(space, req) -> dict[str, Any]:
         elif k == "centers":
             kw[k] = [float(fr(t)) for t in v] if isinstance(v, list) else float(fr(v))
         elif k == "samples":
-            arr = np.array([[float(fr(t)) for t in row] for row in v])
-            form = opts.get("form", "array")
-            if form == "array":
-                kw[k] = arr
-            else:
-                cols, start = {}, 0
-                for var in space["vars"]:
-                    size = len(var["lb"])
-                    cols[var["name"]] = arr[:, start:start + size]
-                    start += size
-                if form == "dict":
-                    kw[k] = cols
-                else:
-                    kw[k] = [{name: c[i] for name, c in cols.items()} for i in range(arr.shape[0])]
-        elif k == "form":
+            kw.update(custom_samples_setting(space, opts))
+        elif k in ("form", "orders", "file", "int_dtype"):
             continue
         elif k == "doe_algo_settings":
             kw[k] = dict(v)
@@ -416,8 +517,22 @@ def valid_request(space, req) -> bool:
             return False
     if algo == "PoissonDisk" and d >= 5 and float(opts.get("radius", 0.05)) < 0.2:
         return False  # resource bound of the check (SciPy's cell grid), not of the property
-    if algo == "CustomDOE" and any(len(row) != d for row in opts.get("samples", [[]])):
-        return False
+    if algo == "CustomDOE":
+        rows = opts.get("samples", [[]])
+        if not rows or any(len(row) != d for row in rows):
+            return False
+        names = sorted(v["name"] for v in space["vars"])
+        if opts.get("form") in ("dict", "dicts"):
+            orders = opts.get("orders")  # absent: the keys in the design-space order
+            if orders is not None and (len(orders) != (1 if opts["form"] == "dict" else len(rows))
+                                       or any(sorted(o) != names for o in orders)):
+                return False
+        if opts.get("form") == "file" and "file" not in opts:
+            return False
+        for row in rows:  # samples given inside the bounds, integral on the integer variables
+            for t, (is_int, l, u) in zip(row, flat(space)):
+                if not l <= fr(t) <= u or (is_int and fr(t).denominator != 1):
+                    return False
     if algo == "OATDOE" and len(opts.get("initial_point", [])) != d:
         return False
     if isinstance(opts.get("levels"), list) and algo in ("OT_FULLFACT", "PYDOE_FULLFACT") and len(opts["levels"]) != d:
@@ -579,6 +694,19 @@ def image_ok(comp, t: Fraction, x: Fraction) -> bool:
     return frac != Fraction(1, 2) and abs(frac - Fraction(1, 2)) <= GUARD * max(1, abs(y)) and x in (lo, lo + 1)
 
 
+def custom_differs(req, X) -> str | None:
+    """None iff the samples X are the samples the user gave (the harness's record: rows in the design-space
+    variable order), up to the float round trip normalise / unnormalise."""
+    given = custom_rows(req)
+    if len(given) != len(X):
+        return f"{len(X)} samples for {len(given)} given"
+    for i, (xr, gr) in enumerate(zip(X, given)):
+        if len(xr) != len(gr) or not all(abs(x - g) <= GUARD * max(1, abs(g)) for x, g in zip(xr, gr)):
+            return (f"sample {i} is {[float(t) for t in xr]}, given {[float(t) for t in gr]} "
+                    "(in the design space's variable order)")
+    return None
+
+
 def oracle(space, req, obs) -> list[tuple[str, str]]:
     bad: list[tuple[str, str]] = []
     algo = req["algo"]
@@ -619,6 +747,11 @@ def oracle(space, req, obs) -> list[tuple[str, str]]:
                 bad.append(("variable-order", f"{algo}: block of {v['name']} is not columns {start}:{start + size}"))
                 break
             start += size
+    # 3'. a custom DOE consists of the given samples, expressed in the design space's variable order
+    if algo == "CustomDOE":
+        msg = custom_differs(req, X)
+        if msg:
+            bad.append(("custom-samples-order", f"CustomDOE (samples given as {req['opts'].get('form', 'array')}): {msg}"))
     # 4. counts
     n_rows = len(X)
     if rule == "eq" and cnt is not None and n_rows != cnt:
@@ -674,6 +807,8 @@ def oracle(space, req, obs) -> list[tuple[str, str]]:
             bad.append(("shape", f"{algo}: lib.samples of shape {xs.shape}"))
         else:
             XS = fmat(xs)
+            if algo == "CustomDOE" and custom_differs(req, XS):
+                bad.append(("custom-samples-order", f"CustomDOE (samples given as {req['opts'].get('form', 'array')}), execute: {custom_differs(req, XS)}"))
             if explicit and (xs.shape != x1.shape or not np.array_equal(xs, x1)):
                 bad.append(("not-reproducible", f"{algo}: execute generated other samples than compute_doe"))
             for i, row in enumerate(XS):
@@ -720,6 +855,34 @@ def doe_line(space, req, mode: str, rows, lseed: int = 0, ok: bool = True) -> st
     if not rows:
         return head
     return head + " | " + rows_str(rows)
+
+
+def custom_groups(space, req) -> tuple[str, str]:
+    """(form, groups) of the `custom` protocol line: the samples as the user wrote them, key orders included."""
+    opts = req["opts"]
+    rows = opts["samples"]
+    form = opts.get("form", "array")
+    if form in ("array", "file"):
+        return "array", " | ".join(",".join(row) for row in rows)
+    names = [v["name"] for v in space["vars"]]
+    rng_of, start = {}, 0
+    for v in space["vars"]:
+        rng_of[v["name"]] = (start, start + len(v["lb"]))
+        start += len(v["lb"])
+    orders = opts.get("orders") or [names]
+    if form == "dict":
+        return "dict", " | ".join(f"{n}=" + ";".join(",".join(row[rng_of[n][0]:rng_of[n][1]]) for row in rows) for n in orders[0])
+    out = []
+    for i, row in enumerate(rows):
+        order = orders[i] if i < len(orders) else names
+        out.append(";".join(f"{n}=" + ",".join(row[rng_of[n][0]:rng_of[n][1]]) for n in order))
+    return "dicts", " | ".join(out)
+
+
+def custom_line(space, req, mode: str, lseed: int = 0) -> str:
+    form, groups = custom_groups(space, req)
+    return (f"custom mode={mode} int0={1 if space['int0'] else 0} lseed={lseed} form={form} vars={varspecs(space)}"
+            + (" | " + groups if groups else ""))
 
 
 def parse_answer(ans: str) -> dict[str, str]:
@@ -781,15 +944,14 @@ def case_lines(space, req, obs) -> list[tuple[str, str, Any]]:
     is_custom = algo == "CustomDOE"
     if obs["exc"] is None and obs["x1"] is not None and obs["x1"].ndim == 2:
         if is_custom:
-            rows = custom_rows(req)
-            lines.append(("compute", doe_line(space, req, "compute", rows), {"x": obs["x1"], "u": None, "int": obs["int_after_compute"], "lseed": obs["lseed_after_1"]}))
+            lines.append(("compute", custom_line(space, req, "compute"), {"x": obs["x1"], "u": None, "int": obs["int_after_compute"], "lseed": obs["lseed_after_1"]}))
         elif obs["u"] is not None and (ALGOS[algo]["seed"] is None or req.get("seed") is not None or ALGOS[algo].get("det")):
             rows = fmat(obs["u"])
             lines.append(("compute", doe_line(space, req, "compute", rows), {"x": obs["x1"], "u": rows, "int": obs["int_after_compute"], "lseed": obs["lseed_after_1"]}))
             lines.append(("unit", doe_line(space, req, "unit", rows), {"x": obs["u"], "u": None, "int": obs["int_after_unit"], "lseed": None}))
     if obs.get("exec_exc") is None and "xs" in obs and obs["xs"].ndim == 2:
-        rows = custom_rows(req) if is_custom else fmat(obs["us"])
-        lines.append(("exec", doe_line(space, req, "exec", rows), {"x": obs["xs"], "u": None if is_custom else rows, "us": obs["us"], "int": obs["int_after_exec"], "lseed": obs["lseed_after_exec"], "db": obs["db"]}))
+        rows = None if is_custom else fmat(obs["us"])
+        lines.append(("exec", custom_line(space, req, "exec") if is_custom else doe_line(space, req, "exec", rows), {"x": obs["xs"], "u": None if is_custom else rows, "us": obs["us"], "int": obs["int_after_exec"], "lseed": obs["lseed_after_exec"], "db": obs["db"]}))
         if obs["xs"].shape[0]:
             lines.append(("db", "firstocc | " + rows_str(fmat(obs["xs"])), {"db": obs["db"]}))
     if "par_xs" in obs and obs["par_xs"].ndim == 2 and obs["par_xs"].shape[0]:
@@ -846,6 +1008,8 @@ def shrink_request(space, req, key: str):
             return False
 
     cur_s, cur_r = space, req
+    if req["algo"] == "CustomDOE":
+        return shrink_custom(space, req, fails)
     if req["algo"] not in ("CustomDOE", "OATDOE") and not req["opts"].get("no_n"):
         r2 = dict(cur_r, opts={})
         if fails(cur_s, r2):
@@ -868,7 +1032,70 @@ def shrink_request(space, req, key: str):
     return cur_s, cur_r
 
 
+def custom_restrict(space, req, rows_kept=None, drop_var=None):
+    """The CustomDOE case restricted to some samples / without one variable (orders and columns follow)."""
+    opts = dict(req["opts"])
+    rows = opts["samples"]
+    orders = opts.get("orders")
+    if rows_kept is not None:
+        opts["samples"] = [rows[i] for i in rows_kept]
+        if orders is not None and opts.get("form") == "dicts":
+            opts["orders"] = [orders[i] for i in rows_kept]
+    if drop_var is not None:
+        start = 0
+        for v in space["vars"]:
+            if v["name"] == drop_var:
+                lo, hi = start, start + len(v["lb"])
+            start += len(v["lb"])
+        opts["samples"] = [row[:lo] + row[hi:] for row in opts["samples"]]
+        if opts.get("orders") is not None:
+            opts["orders"] = [[n for n in o if n != drop_var] for o in opts["orders"]]
+        space = dict(space, vars=[v for v in space["vars"] if v["name"] != drop_var])
+    return space, dict(req, opts=opts, n=len(opts["samples"]))
+
+
+def shrink_custom(space, req, fails):
+    cur_s, cur_r = space, req
+    for i in range(len(cur_r["opts"]["samples"])):  # one sample
+        s2, r2 = custom_restrict(cur_s, cur_r, rows_kept=[i])
+        if fails(s2, r2):
+            cur_s, cur_r = s2, r2
+            break
+    changed = True
+    while changed and len(cur_s["vars"]) > 1:  # fewer variables
+        changed = False
+        for v in cur_s["vars"]:
+            s2, r2 = custom_restrict(cur_s, cur_r, drop_var=v["name"])
+            if fails(s2, r2):
+                cur_s, cur_r, changed = s2, r2, True
+                break
+    if cur_r["opts"].get("orders") is not None:  # is the key order needed?
+        names = [v["name"] for v in cur_s["vars"]]
+        r2 = dict(cur_r, opts=dict(cur_r["opts"], orders=[names] * len(cur_r["opts"]["orders"])))
+        if fails(cur_s, r2):
+            cur_r = r2
+    if cur_r["opts"].get("int_dtype"):
+        r2 = dict(cur_r, opts=dict(cur_r["opts"], int_dtype=False))
+        if fails(cur_s, r2):
+            cur_r = r2
+    if cur_s["int0"] and fails(dict(cur_s, int0=False), cur_r):
+        cur_s = dict(cur_s, int0=False)
+    return cur_s, cur_r
+
+
 def neighbours(space, req):
+    if req["algo"] == "CustomDOE":
+        # the same samples written in the other documented forms and key orders
+        names = [v["name"] for v in space["vars"]]
+        n_rows = len(req["opts"]["samples"])
+        for form in ("array", "dict", "dicts"):
+            for order in (names, names[::-1]):
+                o = dict(req["opts"], form=form)
+                o.pop("file", None)
+                o["orders"] = [order] * (1 if form == "dict" else n_rows)
+                yield space, dict(req, opts=o)
+        yield dict(space, int0=not space["int0"]), req
+        return
     for n in N_VALUES + [9, 30]:
         if n != req["n"]:
             yield space, dict(req, n=n)
@@ -911,6 +1138,18 @@ def check_batch(res: Result, batch: list[tuple[dict, dict, str]], in_scope: bool
         res.count("outcome=" + ("ok" if obs["exc"] is None else "rejected:" + str(obs["exc"])))
         if "par_xs" in obs:
             res.count("parallel-execute")
+        if algo == "CustomDOE":
+            o = req["opts"]
+            form = o.get("form", "array")
+            res.count(f"custom-form={form}")
+            if form in ("dict", "dicts") and len(space["vars"]) >= 2:
+                names = [v["name"] for v in space["vars"]]
+                other = [k for k in (o.get("orders") or []) if k != names]
+                res.count(f"custom-{form}:" + ("key-order-differs-from-the-design-space-order" if other else "keys-in-the-design-space-order"))
+                if form == "dicts" and len({tuple(k) for k in (o.get("orders") or [])}) > 1:
+                    res.count("custom-dicts:different-key-orders-in-one-list")
+                if len({len(v["lb"]) for v in space["vars"]}) > 1:
+                    res.count(f"custom-{form}:variables-of-different-sizes")
         if obs["exc"] is None and obs["x1"] is not None and obs["x1"].shape[0] >= 2:
             res.nontrivial(json.dumps([varspecs(space), space["int0"], req], sort_keys=True, default=str))
         res.sample({"algo": algo, "n": req["n"], "seed": req.get("seed"), "opts": req["opts"], "space": varspecs(space),
@@ -1003,6 +1242,26 @@ def product_stream(ctx, res: Result) -> None:
                 return
             check_batch(res, batch_in[i:i + 120], True)
         check_batch(res, batch_probe, False)
+
+
+def custom_stream(ctx, res: Result) -> None:
+    """CustomDOE on spaces with several variables of different sizes, types and (mostly disjoint) bounds, its
+    samples written in every documented form and in key orders that differ from the design-space order."""
+    rng = ctx.rng
+    batch = []
+    for _ in range(160 if ctx.thorough else 48):
+        dim = rng.randint(2, 5)
+        stream = "exact" if rng.chance(0.5) else "rounded"
+        for _ in range(5):
+            space = gen_space(rng, dim, stream)
+            if len(space["vars"]) >= 2:
+                break
+        n = rng.pick([1, 2, 3, 5])
+        req = {"algo": "CustomDOE", "n": n, "seed": None, "opts": gen_opts(rng, "CustomDOE", space, n)}
+        if valid_request(space, req):
+            batch.append((space, req, stream))
+    for i in range(0, len(batch), 60):
+        check_batch(res, batch[i:i + 60], True)
 
 
 # --------------------------------------------------------------------------- seeder streams
@@ -1433,7 +1692,13 @@ def run(ctx) -> Result:
         "seed sequences (explicit seeds include 0), count rules n=1..40(70) x d=1..5, full-factorial levels up to 1e12, "
         "GEMSEO's own unit designs, design-space views; session stream: 90 (320) histories on ONE design-space object and "
         "ONE library object (DOE / query, then edits that move, add, remove, retype, rebound or rename variables, then "
-        "DOEs again; compute_doe, unit sampling and execute; seeds 0 / explicit / default), non-trivial = at least 2 DOEs"
+        "DOEs again; compute_doe, unit sampling and execute; seeds 0 / explicit / default), non-trivial = at least 2 DOEs; "
+        "custom stream: 48 (160) CustomDOE cases on spaces with >= 2 variables, samples written as array / dictionary of "
+        "2-D arrays / list of dictionaries (key orders: design-space order, reversed, shuffled, one per dictionary) / file; "
+        "process-history stream: 44 (160) histories of 3-7 generations by different algorithms and library objects in ONE "
+        "pristine process (themes: the five OpenTURNS sequences, QMC mix, OpenTURNS algorithms sharing the global "
+        "generator, one algorithm repeated, any), each step compared with the same request run alone in another pristine "
+        "process, non-trivial = at least 2 steps"
     )
     res.assumptions = [
         "third-party samplers return points of [0,1]^d, the requested number of points, and are functions of their seed (validated per run by the oracle on the real outputs)",
@@ -1444,8 +1709,14 @@ def run(ctx) -> Result:
         "CustomDOE: samples given inside the bounds, integer components integral; bounds compared with a 2^-40 slack (normalize/unnormalize round trip in floats)",
         "OATDOE/MorrisDOE: relative step <= 1/2 (a larger step can leave the unit hypercube by construction)",
     ]
+    from harness import c14_proc
     from harness import c14_session
 
+    c14_proc.SERVER.start()  # fork server of pristine processes: its import of GEMSEO overlaps with the first streams
+    res.assumptions.append(
+        "process histories: every history runs in a child of a fork server that has imported GEMSEO and the DOE "
+        "libraries and sampled nothing (harness/c14_fresh.py); the reference of a step is the same request run as the "
+        "only generation of another such child; an unavailable server is an infrastructure failure (exit 2), never a verdict")
     res.assumptions.append(
         "sessions: edits keep the design space bounded and non-empty, the current value inside the bounds (a `setval` "
         "follows every execute, which stores the best point as current value); the unit samples fed to the model for a "
@@ -1457,8 +1728,11 @@ def run(ctx) -> Result:
         elif "session" in c:
             c14_session.check_sessions(res, [c["session"]])
             res.count("corpus")
+        elif "process_history" in c:
+            c14_proc.check_histories(res, [c["process_history"]])
+            res.count("corpus")
     for stream in (view_stream, seeder_stream, count_stream, own_designs_stream, library_seed_stream, probe_stream,
-                   c14_session.session_stream, product_stream):
+                   custom_stream, c14_proc.prochist_stream, c14_session.session_stream, product_stream):
         guarded(stream, ctx, res)
     return res
 
@@ -1487,6 +1761,10 @@ def replay(path: str) -> int:
         from harness import c14_session
 
         return c14_session.replay_session(rp)
+    if "process_history" in rp:
+        from harness import c14_proc
+
+        return c14_proc.replay_history(rp)
     if "seeder" in rp:
         from gemseo.utils.seeder import Seeder
 
